@@ -6,6 +6,7 @@ CONSTANTS
   MaxLen = 28
   F2Quirk = TRUE
   KVDupQuirk = TRUE
+  Lossy = {}
   Descs <- GenDescs
   Reasons <- GenReasons
 INVARIANTS Dump
